@@ -112,6 +112,48 @@ def region_applies(region, job: CH):
     return names <= have
 
 
+def _stop_if_violated(prop, job, r, workdir, t_start):
+    """--first: replay a candidate at once; if it reproduces, report it, stop all running jobs and exit 1."""
+    import shutil
+    import signal
+    import subprocess
+    if isinstance(job, CH):
+        if r["verdict"] != "counterexample" or r["args"] is None:
+            return
+        args = dict(job.fixed)
+        args.update(r["args"])
+        path = write_replay(prop, job.name, job.func, args, r["message"])
+    else:
+        if r["status"] != "sat" or not r.get("replay"):
+            return
+        path = write_replay(prop, job.name, r["replay"]["func"], r["replay"]["args"], r.get("detail", ""))
+    rc, out = run_replay(path)
+    if rc != 1:
+        return
+    print(f"VIOLATION property={prop} replay={path}")
+    print(f"  job={job.name}: {out}")
+    print(f"{prop}: stopped at the first violation after {round(time.time() - t_start, 1)} s, exit 1")
+    sys.stdout.flush()
+    me = os.getpid()
+    tree = subprocess.run("ps -eo pid,ppid", shell=True, capture_output=True, text=True).stdout.splitlines()[1:]
+    kids = {}
+    for l in tree:
+        pid, ppid = map(int, l.split())
+        kids.setdefault(ppid, []).append(pid)
+    todo, victims = [me], []
+    while todo:
+        for c in kids.get(todo.pop(), []):
+            victims.append(c)
+            todo.append(c)
+    for v in victims:
+        try:
+            os.kill(v, signal.SIGKILL)
+        except Exception:
+            pass
+    shutil.rmtree(workdir, ignore_errors=True)
+    os._exit(1)
+
+
 def main(argv=None):
     ap = argparse.ArgumentParser()
     ap.add_argument("prop")
@@ -120,6 +162,7 @@ def main(argv=None):
     ap.add_argument("--workers", type=int, default=int(os.environ.get("VF_WORKERS", "16")))
     ap.add_argument("--keep", action="store_true")
     ap.add_argument("--no-evidence", action="store_true")
+    ap.add_argument("--first", action="store_true", help="stop at the first violation that replays (seeded-change experiment; writes no evidence)")
     a = ap.parse_args(argv)
     prop = a.prop.upper()
     seed = int(os.environ.get("VERIF_SEED", "0") or 0)
@@ -170,6 +213,8 @@ def main(argv=None):
             futs = {ex.submit(one, j): j for j in jobs}
             for f in cf.as_completed(futs):
                 results[futs[f].name] = f.result()
+                if a.first:
+                    _stop_if_violated(prop, futs[f], f.result(), workdir, t_start)
         # 3. one retry, with a longer budget, for jobs that did not exhaust
         def inconclusive(job, r):
             if isinstance(job, CH):
